@@ -42,7 +42,7 @@ W = {'open': 6, 'rpc': 6, 'consume': 4, 'deliver': 4, 'get': 5, 'return': 5, 'co
 
 def gen(tier, seed):
     rng = Rng(seed * 131 + 8)
-    n = 400 if tier == "quick" else 12000
+    n = 1500 if tier == "quick" else 12000
     cases = []
     for i in range(n):
         s = Session(rng, weights=W, chmax=rng.choice([2, 3, 6]), bound=rng.choice([1, 2, 4]), via_stream=rng.choice([0.0, 0.5, 1.0]))
